@@ -7,6 +7,7 @@ pub mod c02;
 pub mod c04;
 pub mod c07;
 pub mod c10;
+pub mod c12;
 pub mod c13;
 pub mod c14;
 pub mod c17;
@@ -18,6 +19,7 @@ pub fn run(ctx: &Ctx, sh: &mut Shard) {
         "C04" => c04::run(ctx, sh),
         "C07" => c07::run(ctx, sh),
         "C10" => c10::run(ctx, sh),
+        "C12" => c12::run(ctx, sh),
         "C13" => c13::run(ctx, sh),
         "C14" => c14::run(ctx, sh),
         "C17" => c17::run(ctx, sh),
@@ -34,6 +36,7 @@ pub fn replay(v: &Value, sh: &mut Shard) {
         "C04" => c04::replay(v, sh),
         "C07" => c07::replay(v, sh),
         "C10" => c10::replay(v, sh),
+        "C12" => c12::replay(v, sh),
         "C13" => c13::replay(v, sh),
         "C14" => c14::replay(v, sh),
         "C17" => c17::replay(v, sh),
